@@ -11,6 +11,25 @@ GROUPS = [
     Group(name="C10/parse_ifdef", unity="C10/u_parse_if.cpp", entry="h_parse_ifdef", functions=[("parse_ifdef", DI, "harness"), ("parse_ifdef_ignore", DI, "harness")],
           unwind=4, checks=CH, timeout=300),
 ]
+IE = "core/ifdef_expression.cpp"
+IEF = [("eval_ifdef_expression", IE, "harness (token script, symbolic operands)"), ("parse_ifdef_expression", IE, "harness"), ("eval_operation", IE, "harness"), ("get_operator", IE, "harness")]
+ON = ["eq", "ge", "le", "gt", "lt", "or", "and"]
+for a in range(7):
+    GROUPS.append(Group(name="C10/expr.seq1.%s" % ON[a], unity="C10/u_ifexpr.cpp", entry="h_ifexpr", functions=IEF, defines=["NOPS=1", "O0=%d" % a], unwind=8, checks=CH[:2], timeout=300))
+    GROUPS.append(Group(name="C10/expr.seq1.not.%s" % ON[a], unity="C10/u_ifexpr.cpp", entry="h_ifexpr", functions=IEF, defines=["NOPS=1", "O0=%d" % a, "NOTMASK=3"], unwind=8, checks=[], timeout=300, tier="thorough" if a not in (0, 5, 6) else "quick"))
+# operator sequences of length 2 and 3: only those whose symbolic execution finishes are registered
+# (chains in which the parser evaluates two operators of one precedence class back to back make CBMC's
+# symex split on every intermediate `n == -1` test and do not finish within minutes; measured on this tree)
+FEASIBLE = ['seq2.and.eq', 'seq2.and.ge', 'seq2.and.gt', 'seq2.and.le', 'seq2.and.lt', 'seq2.and.or', 'seq2.eq.and', 'seq2.eq.or', 'seq2.ge.and', 'seq2.ge.or', 'seq2.gt.and', 'seq2.gt.or', 'seq2.le.and', 'seq2.le.or', 'seq2.lt.and', 'seq2.lt.or', 'seq2.or.and', 'seq2.or.eq', 'seq2.or.ge', 'seq2.or.gt', 'seq2.or.le', 'seq2.or.lt', 'seq2.or.or', 'seq3.and.eq.or', 'seq3.and.or.and', 'seq3.and.or.lt', 'seq3.and.or.or', 'seq3.eq.and.lt', 'seq3.eq.and.or', 'seq3.eq.or.and', 'seq3.eq.or.lt', 'seq3.eq.or.or', 'seq3.gt.and.lt', 'seq3.gt.and.or', 'seq3.gt.or.and', 'seq3.gt.or.lt', 'seq3.gt.or.or', 'seq3.or.and.lt', 'seq3.or.and.or', 'seq3.or.eq.and', 'seq3.or.eq.or', 'seq3.or.or.and', 'seq3.or.or.lt', 'seq3.or.or.or']
+IDX = {n: i for i, n in enumerate(ON)}
+for nm in FEASIBLE:
+    parts = nm.split(".")
+    ops = [IDX[x] for x in parts[1:]]
+    GROUPS.append(Group(name="C10/expr.%s" % nm, unity="C10/u_ifexpr.cpp", entry="h_ifexpr", functions=IEF,
+                        defines=["NOPS=%d" % len(ops)] + ["O%d=%d" % (k, o) for k, o in enumerate(ops)], unwind=8, checks=[], timeout=300,
+                        tier="quick" if (len(ops) == 2 and ops[0] in (0, 3, 5, 6)) or nm in ("seq3.eq.and.or", "seq3.and.or.and", "seq3.or.and.or", "seq3.gt.or.lt") else "thorough"))
+import C12 as _c12
+GROUPS += [g for g in _c12.GROUPS if g.name in ("C12/assemble", "C12/parse_directives.endif", "C12/parse_directives.else", "C12/parse_directives.if", "C12/parse_directives.ifdef", "C12/parse_directives.ifndef")]
 LEVEL = "proof"
 TRUSTED = ["tokens_get replaced by a stream contract that emits an arbitrary unbounded stream over {EOF, EOL, '.', '#', endif, else, if, ifdef, ifndef, ENDIF, other}",
            "strcasecmp replaced by a loop-free contract for strings of at most 7 characters"]
